@@ -215,6 +215,12 @@ def mofRemoteHas (s : Store) (fuel : Nat) (haves wants shallow : List Id) :
   | .error err => .error err
   | .ok st0 => .ok st0.done
 
+/-- Hypothesis on `get_tagged()` used by the completeness theorem: an entry `sha ↦ tag` names a tag
+object whose target is `sha` itself (what `UploadPackHandler.get_tagged` builds for a tag of a
+non-tag; a tag of a tag is mapped from its *peeled* target and is not covered). -/
+def TaggedDirect (s : Store) (tagged : List (Id × Id)) : Prop :=
+  ∀ x t, tagged.lookup x = some t → s t = some (.tag x) ∨ s t = none
+
 /-! ## thin packs at the logical level (`add_thin_pack` → `extend_pack`) -/
 
 /-- A pack entry: the object it encodes and, for a delta, the name of its base. -/
